@@ -277,6 +277,37 @@ def _drain(p):
     return frames, "SPIN"
 
 
+def _drain_pushback(p, rng):
+    """Like _drain, but probing eof() between frames and pushing frames back
+    (unread_pkt_line) before reading them again, as the stateless-rpc server
+    and the client's version negotiation do."""
+    GPE, HUP = _proto_errors()
+    frames = []
+    for _ in range(200000):
+        try:
+            if rng.random() < 0.4:
+                if p.eof():
+                    return frames, "hangup"
+            f = p.read_pkt_line()
+            if rng.random() < 0.35:
+                p.unread_pkt_line(f)
+                if rng.random() < 0.5 and p.eof():
+                    return frames, "EXC:eof-after-unread:"
+                g = p.read_pkt_line()
+                if g != f:
+                    return frames, "EXC:reread-differs:"
+            frames.append(f)
+        except HUP:
+            return frames, "hangup"
+        except GPE:
+            return frames, "protocol-error"
+        except StreamSpin:
+            return frames, "SPIN"
+        except BaseException as e:  # noqa: BLE001
+            return frames, "EXC:" + type(e).__name__ + ":" + str(e)[:80]
+    return frames, "SPIN"
+
+
 def dec_parser(stream):
     from dulwich.protocol import PktLineParser
     GPE, HUP = _proto_errors()
@@ -464,6 +495,24 @@ def run_roundtrip(plan, ctx):
     cuts = make_cuts(plan["cut"], len(ref), bounds)
     check_decode(ctx, ref, cuts, "eof", "roundtrip",
                  rbufsize=plan.get("rbufsize", 8192), expect=frames)
+    # the same stream read with eof() probes and push-backs in between
+    from dulwich.protocol import ReceivableProtocol
+    prng = random.Random(derive_seed(plan["seed"], "c19pushback"))
+    want_n = norm(frames)
+    for name, mk in (
+            ("Protocol", lambda s: Protocol(buffered_read(s),
+                                            lambda b: None)),
+            ("ReceivableProtocol", lambda s: ReceivableProtocol(
+                s.recv, lambda b: None, rbufsize=plan.get("rbufsize", 8192)))):
+        st = ChunkedStream(ref, cuts)
+        got, how = _drain_pushback(mk(st), prng)
+        ctx.stat("probe:pushback_decode")
+        if how != "hangup" or got != want_n:
+            ctx.v(f"roundtrip-mismatch/{name}/pushback" +
+                  (f"/{how.split(':')[1]}" if how.startswith("EXC") else ""),
+                  f"{how}: got {len(got)} of {len(want_n)} frames "
+                  f"{[f if f is None else len(f) for f in got[:8]]} want "
+                  f"{[f if f is None else len(f) for f in want_n[:8]]}")
     # read_pkt_seq: sequences are delimited by flush packets
     st = ChunkedStream(ref + b"0000", cuts)
     p = Protocol(buffered_read(st), lambda b: None)
